@@ -18,6 +18,8 @@ RULE = ("Datasets of 1-4 variables over 1-3 dims (some variables lack the operat
         "2-3 Datasets as list or dict}. class = (operation, form, #vars lacking the dim, has 0-d var, label kind, order); trivial = none")
 ANCHORS = ["dataset.take", "dataset._apply_dimarray_axis", "dataset.reduce_axis", "dataset.reindex_axis", "dataset.interp_axis",
            "dataset._binary_op", "dataset._unary_op", "dataset.stack_ds", "dataset.concatenate_ds", "dataset.take_axis", "dataset.sort_axis"]
+# entry points the workload calls itself; the other anchors are helpers behind them (counted as evidence only)
+ANCHORS_REQUIRED = ["dataset.take", "dataset.reindex_axis", "dataset.interp_axis", "dataset.stack_ds", "dataset.concatenate_ds", "dataset.take_axis", "dataset.sort_axis"]
 FLOORS = {"quick": {"evaluations": 1500, "distinct": 500, "outcome:variables-compared": 3000, "outcome:variables-lacking-dim": 300},
           "thorough": {"evaluations": 40000, "distinct": 2000}}
 WHAT = ['take', 'take', 'loc', 'sel', 'ix', 'isel', 'take_pos', 'reduce', 'take_axis', 'sort_axis', 'reindex', 'reindex', 'interp', 'interp',
